@@ -93,6 +93,7 @@ func (f *FuncVC) applyContract(st *State, x *ssa.Call, con *Contract, args []*Va
 	}
 	src := f.srcAt(x.Pos())
 	pre := st.clone()
+	anyAtCall := map[string]*Val{}
 	mkEval := func(s *State, old *State) *Eval {
 		ev := &Eval{f: f, st: s, old: old, env: map[string]*Val{}, lets: map[string]ast_Expr{}, bound: map[string]*Val{}}
 		ev.pkg = f.eng.typesPkg(con.PkgPath, f.fn.Pkg.Pkg)
@@ -102,10 +103,43 @@ func (f *FuncVC) applyContract(st *State, x *ssa.Call, con *Contract, args []*Va
 		for _, l := range con.Lets {
 			ev.lets[l.Name] = l.Expr
 		}
+		for _, a := range con.Anys {
+			ev.env[a[0]] = anyAtCall[a[0]]
+		}
 		return ev
 	}
+	// "any" variables of the callee: one fresh arbitrary value per call (a
+	// requires clause is then proved for an arbitrary value, an ensures clause
+	// is assumed for that one value only - sound, weaker than the quantifier)
+	for _, a := range con.Anys {
+		c := f.sc.fresh("anycall." + a[0])
+		f.sc.declare(c, "Int")
+		v := &Val{K: KInt, T: c}
+		if obj := types.Universe.Lookup(a[1]); obj != nil {
+			v.Ty = obj.Type()
+			if lo, hi, ok := intRangeOf(obj.Type()); ok {
+				f.sc.assert(and(cmp("<=", numBig(lo), c), cmp("<=", c, numBig(hi))))
+			}
+		}
+		anyAtCall[a[0]] = v
+	}
 	ev := mkEval(pre, pre)
+	assumePre := false
+	if f.con != nil {
+		for _, n := range strings.Split(f.con.Opts["assume_pre"], ",") {
+			if n != "" && n == con.Name {
+				assumePre = true
+			}
+		}
+	}
 	for _, c := range con.Requires {
+		if assumePre {
+			// opt assume_pre=<callee>: the caller's contract does not cover the data
+			// this callee needs; its precondition is assumed here and reported
+			f.usedAssumed["precondition of "+con.Name+" is ASSUMED at its call in "+f.name()+" (opt assume_pre): "+c.Text] = true
+			f.assume(st, ev.assuming().evalBool(c.Expr))
+			continue
+		}
 		for _, cj := range ev.evalConj(c.Expr) {
 			f.oblige(st, "pre", src+" requires "+cj.Label, cj.Term)
 		}
